@@ -2,6 +2,13 @@
 
 package server
 
+import (
+	"encoding/binary"
+	"encoding/json"
+	"errors"
+	"time"
+)
+
 // VerifIDForURI returns the internal id of an identifier (false when it never got one).
 func (s *Store) VerifIDForURI(uri string) (uint64, bool) {
 	txn := s.database.NewTransaction(false)
@@ -28,4 +35,102 @@ func (s *Store) VerifDeletedDatasets() []uint32 {
 		}
 	}
 	return r
+}
+
+// VerifInjectDuplicate writes a new version of an entity WITHOUT the write-time equality check,
+// the way hub versions before the deduplication did: entity json, change log entry, latest
+// pointer and (for a live entity) its reference keys at the new commit time.
+func (ds *Dataset) VerifInjectDuplicate(e *Entity) (uint64, error) {
+	ds.WriteLock.Lock()
+	defer ds.WriteLock.Unlock()
+	time.Sleep(time.Nanosecond)
+	txnTime := time.Now().UnixNano()
+	rid, ok := ds.store.VerifIDForURI(e.ID)
+	if !ok {
+		return 0, errors.New("unknown id")
+	}
+	e.InternalID = rid
+	e.Recorded = uint64(txnTime)
+	jsonData, _ := json.Marshal(e)
+	txn := ds.store.database.NewTransaction(true)
+	defer txn.Discard()
+	key := make([]byte, 24)
+	binary.BigEndian.PutUint16(key, EntityIDToJSONIndexID)
+	binary.BigEndian.PutUint64(key[2:], rid)
+	binary.BigEndian.PutUint32(key[10:], ds.InternalID)
+	binary.BigEndian.PutUint64(key[14:], uint64(txnTime))
+	binary.BigEndian.PutUint16(key[22:], 0)
+	if err := txn.Set(key, jsonData); err != nil {
+		return 0, err
+	}
+	seqKey := make([]byte, 6)
+	binary.BigEndian.PutUint16(seqKey, SysDatasetsSequences)
+	binary.BigEndian.PutUint32(seqKey[2:], ds.InternalID)
+	seq, _ := ds.store.database.GetSequence(seqKey, 1000)
+	defer seq.Release()
+	n, _ := seq.Next()
+	ck := make([]byte, 22)
+	binary.BigEndian.PutUint16(ck, DatasetEntityChangeLog)
+	binary.BigEndian.PutUint32(ck[2:], ds.InternalID)
+	binary.BigEndian.PutUint64(ck[6:], n)
+	binary.BigEndian.PutUint64(ck[14:], rid)
+	if err := txn.Set(ck, key); err != nil {
+		return 0, err
+	}
+	lk := make([]byte, 14)
+	binary.BigEndian.PutUint16(lk, DatasetLatestEntities)
+	binary.BigEndian.PutUint32(lk[2:], ds.InternalID)
+	binary.BigEndian.PutUint64(lk[6:], rid)
+	if err := txn.Set(lk, key); err != nil {
+		return 0, err
+	}
+	for p, v := range e.References {
+		var targets []string
+		switch t := v.(type) {
+		case string:
+			targets = []string{t}
+		case []interface{}:
+			for _, x := range t {
+				if s, ok := x.(string); ok {
+					targets = append(targets, s)
+				}
+			}
+		case []string:
+			targets = t
+		}
+		pid, ok1 := ds.store.VerifIDForURI(p)
+		for _, tg := range targets {
+			tid, ok2 := ds.store.VerifIDForURI(tg)
+			if !ok1 || !ok2 {
+				continue
+			}
+			del := uint16(0)
+			if e.IsDeleted {
+				del = 1
+			}
+			out := make([]byte, 40)
+			binary.BigEndian.PutUint16(out, OutgoingRefIndex)
+			binary.BigEndian.PutUint64(out[2:], rid)
+			binary.BigEndian.PutUint64(out[10:], uint64(txnTime))
+			binary.BigEndian.PutUint64(out[18:], pid)
+			binary.BigEndian.PutUint64(out[26:], tid)
+			binary.BigEndian.PutUint16(out[34:], del)
+			binary.BigEndian.PutUint32(out[36:], ds.InternalID)
+			in := make([]byte, 40)
+			binary.BigEndian.PutUint16(in, IncomingRefIndex)
+			binary.BigEndian.PutUint64(in[2:], tid)
+			binary.BigEndian.PutUint64(in[10:], rid)
+			binary.BigEndian.PutUint64(in[18:], uint64(txnTime))
+			binary.BigEndian.PutUint64(in[26:], pid)
+			binary.BigEndian.PutUint16(in[34:], del)
+			binary.BigEndian.PutUint32(in[36:], ds.InternalID)
+			if err := txn.Set(out, []byte("")); err != nil {
+				return 0, err
+			}
+			if err := txn.Set(in, []byte("")); err != nil {
+				return 0, err
+			}
+		}
+	}
+	return uint64(txnTime), txn.Commit()
 }
